@@ -19,7 +19,7 @@ set_option maxRecDepth 100000
 /-- how the lexer classifies an identifier run -/
 def classify (l : Seq) : Tok :=
   if (parseInt64 l).isSome then Tok.num l
-  else if l.map upper == [67, 76, 85, 83, 84, 65, 76] || l.map upper == [67, 76, 85, 83, 84, 65, 76, 87] then .clustal
+  else if Utf8.upperLit l == [67, 76, 85, 83, 84, 65, 76] || Utf8.upperLit l == [67, 76, 85, 83, 84, 65, 76, 87] then .clustal
   else .ident l
 
 theorem scan_run (l : Seq) (h : Run l) (x : Byte) (hx : identChar x = false) (hx0 : x ≠ 0) (rest : Seq) :
